@@ -18,11 +18,11 @@ fn native_idx(a: &[f64], q: f64) -> Result<usize, String> {
     std::panic::catch_unwind(|| arr.get_lower_index(q)).map_err(|_| "panic".to_string())
 }
 
-fn check_len(n: &usize) -> Report {
-    let n = *n;
+fn check_len(item: &(usize, u64)) -> Report {
+    let (n, timeout_ms) = *item;
     with_ctx(|c| c.reset_all());
     with_ctx(|c| c.mode = Mode::O);
-    let mut chk = Chk::new(Mode::O, 20_000);
+    let mut chk = Chk::new(Mode::O, timeout_ms);
     chk.begin_config(&format!("get_lower_index, symbolic axis of length {n}"));
     let x: Vec<Sym> = (0..n).map(|i| Sym::var(&format!("x{i}"))).collect();
     let q = Sym::var("q");
@@ -123,8 +123,9 @@ fn check_len(n: &usize) -> Report {
 }
 
 pub fn run(args: &Args) -> Report {
-    let nmax = if args.thorough() { 16 } else { 10 };
-    let mut rep = par_run((2..=nmax).collect::<Vec<usize>>(), args.threads, check_len);
+    let nmax = if args.thorough() { 14 } else { 10 };
+    let to = if args.thorough() { 120_000 } else { 20_000 };
+    let mut rep = par_run((2..=nmax).map(|n| (n, to)).collect::<Vec<(usize, u64)>>(), args.threads, check_len);
     rep.functions.insert("vector_extensions::VectorExtensions::get_lower_index".into());
     rep.bounds.push(format!("engine S: axis length 2..{nmax}, axis values and query all IEEE doubles under x_i < x_i+1 and q non-NaN (infinite queries included); the initial guess takes every index 0..=len-2"));
     rep.outside.push("lengths above the bounds (in particular the 10^4 of the quantifier text and the theoretical f32 guess overflow at n >= 2^23)".into());
